@@ -190,7 +190,10 @@ func (r *RegistryImpl) Begin(ctx context.Context, engine interface{}, readOnly b
 		tx  Transaction
 		err error
 	}
-	resultCh := make(chan txResult, 1)
+	// Unbuffered: the send below must succeed only while the receiver is still
+	// waiting. With a buffered channel a transaction created after the timeout
+	// could be parked in the channel forever, holding the database lock
+	resultCh := make(chan txResult)
 
 	// Start transaction in a goroutine
 	go func() {
